@@ -31,6 +31,15 @@ def build(tier, ctx):
     tasks += [{"name": nm, "defn": dsl.to_list(d), "k": 2,
                "pres": ["canonical"], "mode": "c02", "seed": hs}
               for hs in (1, 2, 3) for nm, d in ext]
+    # loop-free fork definitions under other alphabetical orders of their
+    # event names
+    for nm, d in pvcommon.scope_defs(ctx["repo"], 5 if tier == "quick" else 6,
+                                     with_corpus=False):
+        cs = dsl.constructs(d)
+        if cs & {"and", "or", "xor"} and "loop" not in cs:
+            for v in pvcommon.name_order_variants(d):
+                tasks.append({"name": nm, "defn": dsl.to_list(v), "k": 2,
+                              "pres": ["canonical"], "mode": "c02"})
     return tasks
 
 
